@@ -119,6 +119,7 @@ pub fn note_layout(st: &mut RunStats, enc: &Encoded, layout: &Layout) {
     st.count("ignored_packets", s.ignored_packets);
     st.probe("producer_packet_completes_no_point", s.packets_completing_no_point > 0);
     st.probe("empty_stream_in_packet", s.empty_streams > 0);
+    st.probe("data_packet_with_all_streams_empty", s.all_empty_data_packets > 0);
     st.probe("value_cut_across_packets", s.values_cut_across_packets > 0);
     st.probe("non_data_packet_first", s.non_data_first);
     st.probe("non_data_packet_between_data_packets", s.non_data_middle);
@@ -250,6 +251,7 @@ impl Prop for C03 {
             required_probes: vec![
                 "producer_packet_completes_no_point".into(),
                 "empty_stream_in_packet".into(),
+                "data_packet_with_all_streams_empty".into(),
                 "value_cut_across_packets".into(),
                 "non_data_packet_first".into(),
                 "non_data_packet_between_data_packets".into(),
